@@ -14,6 +14,7 @@ import importlib
 import itertools
 import json
 import random
+import re
 import time
 import traceback
 
@@ -413,6 +414,15 @@ def _uf_facts(model, assertions):
     return facts
 
 
+HARNESS_OBJECT = re.compile(r"^'(Stub|Obj|O|N|_N|C|Ctx|Ev|Book|FakeFile|Encoded)' object has no attribute")
+
+
+def harness_gap(exc):
+    """the code under contract read an attribute of an OPAQUE collaborator that the harness does not model: the contract
+    does not speak about such a run (undecided - the unit needs a richer collaborator), it is not a failure of the code"""
+    return isinstance(exc, AttributeError) and bool(HARNESS_OBJECT.match(str(exc)))
+
+
 def native_outcome(unit, fn, args):
     try:
         if unit.native_call is not None:
@@ -430,6 +440,8 @@ def eval_contract_native(unit, args, out):
     except Exception:
         return None
     res = []
+    if out.kind == 'raise' and harness_gap(out.value):
+        return None
     if out.kind == 'raise' and not isinstance(out.value, unit.allowed_raises):
         res.append(('no_python_exception', False))
     else:
@@ -503,6 +515,8 @@ def run_instance(inst, tier='quick', seed=0):
         paths = it.explore(thunk)
     except Exception as ex:     # interpreter crash: undecided, never a violation
         paths = [(Path([]), ('unsupported', f'interpreter error {type(ex).__name__}: {ex}\n{traceback.format_exc(limit=4)}'))]
+    paths = [(p_, (('unsupported', f'harness gap: {v_} (an opaque collaborator lacks an attribute the code now reads)') if k_ == 'raise' and harness_gap(v_) else (k_, v_)))
+             for p_, (k_, v_) in paths]
     explore_s = time.time() - t_start
 
     cases = [Case('no_python_exception', lambda *a: True, None)] + [c for c in unit.cases if c.proof]
